@@ -286,12 +286,23 @@ func stripChainReturnValue(top, parent *valueProperty, this_ propertySet, key in
 	}
 	if this.key == key {
 		// caller ensures that this != top/parent
-		parent.chain = this.chain
-		this.chain = nil
-		return this.val, top
+		// The links may be shared with copies of the owner (cells are passed
+		// by value), so we never unlink in place: rebuild the links above
+		// the removed one and leave the old chain untouched.
+		return this.val, rebuildWithout(top, this)
 	}
 	if this.chain == nil || this.chain == noProperty {
 		return nil, top
 	}
 	return stripChainReturnValue(top, this, this.chain, key)
+}
+
+// rebuildWithout returns a copy of the chain starting at from, skipping the
+// link drop; links below drop are shared, not copied.
+func rebuildWithout(from, drop *valueProperty) propertySet {
+	if from == drop {
+		return drop.chain
+	}
+	next, _ := from.chain.(*valueProperty)
+	return &valueProperty{rebuildWithout(next, drop), from.key, from.val}
 }
